@@ -209,7 +209,7 @@ Proof.
   destruct (p_peek_tok p) as [pk p1] eqn:Ep. cbn [fst snd] in K. destruct K as [Ki Kpk Kl Km Kn Kr].
   destruct (N.eqb_spec (t_typ pk) pk_itemRightParen) as [Ea|Ea].
   - tnz Ea Hnz. pnext p1 t2 p2 R. cbn [snd] in Kn. assert (Et2 : t2 = pk) by congruence. rewrite Et2 in R. dnrel R. fin.
-  - apply func_loop_ok; auto; unfold kap in *; lia.
+  - eapply ppost_weaken; [apply func_loop_ok; auto; unfold kap in *; lia|]. intros; cbn beta in *; lia.
 Qed.
 
 Lemma parse_map_literal_ok pos first p b :
